@@ -12,7 +12,7 @@ LEVEL = 'exploration'
 TECHNIQUE = ('Hypothesis-generated pairs x all nine option combinations; independent walker checks the pairing '
              'constraints each option documents on every mapping and list edit at every depth')
 RULE = ("Cases: C01's generators for JSON-like documents, nested lists, plist-wrapped documents (all built by "
-        "json.build_tree with the options) and XML elements (attributes carry the dictionary strategy) x {auto, match, "
+        "json.build_tree with the options), the same documents built through BasicBuilder / pydiff.build_tree and XML elements (attributes carry the dictionary strategy) x {auto, match, "
         "none} x {on, off, off-when-same-length}. Oracle over the fully refined script: strategy none => no "
         "non-insert/remove sub-edit of a mapping edit pairs items whose keys differ; auto => for every key present in "
         "both mappings some sub-edit pairs exactly those two items; list edits off (or off-when-same-length with equal "
@@ -21,7 +21,7 @@ RULE = ("Cases: C01's generators for JSON-like documents, nested lists, plist-wr
         "outside the list-option domain. Non-trivial: a mapping edit with both a shared and an unshared key, or a "
         "positional list edit with a surplus tail. Distinct by case hash.")
 ASSUMPTIONS = [
-    "list options are only claimed for lists built by json.build_tree (JSON/JSON5/YAML/plist/pickle inputs); XML child lists and CSV rows ignore them by construction",
+    "list options are only claimed for lists built by json.build_tree or the Builder framework (JSON/JSON5/YAML/plist/pickle/Python-object inputs); XML child lists and CSV rows ignore them by construction",
     "paired elements are identified by canonical value, so a mis-pairing between equal-valued duplicates is not distinguished",
 ]
 MANIFEST_TEXT = ("Every mapping and list edit at every depth of every generated pair is checked against the documented "
@@ -34,9 +34,9 @@ valid = gen.valid_case
 
 def jobs(tier):
     if tier == 'quick':
-        plan = [('json', 10, 4, 260), ('nested', 0, 0, 60), ('xml', 5, 0, 40), ('plist', 8, 0, 30)]
+        plan = [('json', 10, 4, 260), ('nested', 0, 0, 60), ('xml', 5, 0, 40), ('plist', 8, 0, 30), ('builder', 10, 4, 120)]
     else:
-        plan = [('json', 25, 7, 6000), ('nested', 0, 0, 1200), ('xml', 8, 0, 1000), ('plist', 12, 0, 600)]
+        plan = [('json', 25, 7, 6000), ('nested', 0, 0, 1200), ('xml', 8, 0, 1000), ('plist', 12, 0, 600), ('builder', 20, 6, 2500)]
     js = []
     for s in range(16):
         for fam, ml, mw, n in plan:
